@@ -49,6 +49,15 @@ def check_scope(rep, uni, sp, scope, ob, lexrows, case, stats, default_mode=Fals
         if got != exp or len(got) != len({'words': ob['words'], 'senses': ob['senses'], 'synsets': ob['synsets']}[name]):
             F('%s() does not list exactly the declared %s' % (name, name),
               {'missing': sorted(exp - got), 'spurious': sorted(got - exp)})
+    # ---- the lexicon every entity reports for itself
+    for kind, table in (('word', words), ('sense', senses), ('synset', synsets)):
+        for (osp, xid), x in table.items():
+            lx = uni.lex[osp][0]
+            want = ['ok', [lx['id'], lx['version'], lx['label'], lx['language'], lx['license'], lx['email'], lx.get('url'),
+                           lx.get('citation'), lx.get('logo')]]
+            if x.get('elex') != want:
+                F('%s.lexicon() does not report the attributes of the declaring lexicon' % kind,
+                  {kind: xid, 'got': x.get('elex'), 'expected': want})
     # ---- words
     for (osp, eid), w in words.items():
         _, e = uni.owner_entry(osp, eid)
@@ -201,7 +210,9 @@ def run(rep, tier, build, replay=None):
         scopes = scopes_for(uni)
         cfgs = [{'lexicon': ' '.join(sc), 'expand': ''} for _, sc in scopes] + [{}]
         unis.append({'resources': res, 'style_seed': rng.randrange(1 << 30), 'configs': cfgs, 'deep': False,
-                     'want_tables': False, 'batch_size': rng.choice([None, None, 1, 2, 3]), 'interleave': True})
+                     'want_tables': False, 'batch_size': rng.choice([None, None, 1, 2, 3]), 'interleave': True,
+                     'churn': ({'lmf_version': '1.1', 'lexicons': [gendoc.gen_lexicon(rng, 'zz', '0', 'fr', ['i1', 'i2'], '1.1', size=2)]}
+                               if i % 2 == 0 else None)})
     nsh = common.NPROC
     shards = [s for s in (unis[i::nsh] for i in range(nsh)) if s]
     outs = common.run_impl_parallel('run_battery.py', [{'universes': s} for s in shards])
